@@ -150,11 +150,17 @@ pub struct Generated {
 /// stays a pure function of its seed and the code, and a replay in a fresh process sees the
 /// same thread-local history.
 fn hermetic<T: Send>(f: impl FnOnce() -> Result<T, HarnessError> + Send) -> Result<T, HarnessError> {
-    std::thread::scope(|s| match s.spawn(f).join() {
-        Ok(r) => r,
-        Err(_) => {
-            let (loc, msg) = take_panic();
-            Err(HarnessError(format!("run thread died outside any guarded call at {}: {}", loc, msg)))
+    std::thread::scope(|s| {
+        let h = s.spawn(move || match panic::catch_unwind(AssertUnwindSafe(f)) {
+            Ok(r) => r,
+            Err(_) => {
+                let (loc, msg) = take_panic();
+                Err(HarnessError(format!("run thread panicked outside any guarded call at {}: {}", loc, msg)))
+            }
+        });
+        match h.join() {
+            Ok(r) => r,
+            Err(_) => Err(HarnessError("run thread died".into())),
         }
     })
 }
@@ -166,8 +172,31 @@ pub fn generate(seed_i: u64, prop: u32, step_scale: usize) -> Result<Generated, 
 fn generate_inner(seed_i: u64, prop: u32, step_scale: usize) -> Result<Generated, HarnessError> {
     let mut rng = Rng::new(seed_i);
     let sw = Swarm::draw(&mut rng, prop);
-    let choice = starts::choose(&mut rng, &sw.start_w, sw.quiet_start);
-    let overlaid = starts::apply_overlay(&choice.board, sw.overlay, &mut rng);
+    // Start positions are built with library calls (the gate, playouts). Should one of them panic
+    // on a changed tree, that is nobody's property here: the run starts from the initial position.
+    let built = panic::catch_unwind(AssertUnwindSafe(|| {
+        let mut r2 = rng.clone();
+        let choice = starts::choose(&mut r2, &sw.start_w, sw.quiet_start);
+        let overlaid = starts::apply_overlay(&choice.board, sw.overlay, &mut r2);
+        (choice, overlaid, r2)
+    }));
+    let (choice, overlaid) = match built {
+        Ok((c, o, r2)) => {
+            rng = r2;
+            (c, o)
+        }
+        Err(_) => {
+            let _ = take_panic();
+            let b = match panic::catch_unwind(starts::initial) {
+                Ok(b) => b,
+                Err(_) => {
+                    let (loc, msg) = take_panic();
+                    return Err(HarnessError(format!("even the initial position cannot be built: panic at {}: {}", loc, msg)));
+                }
+            };
+            (starts::StartChoice { board: b.clone(), family: starts::Family::S0, rejected: 0 }, b)
+        }
+    };
     // canonical start: rebuilt from scratch from the harness's own FEN, exactly as a replay will
     let start_fen = pos_of(&overlaid).to_fen();
     let start = Pos::from_fen(&start_fen)
